@@ -95,6 +95,145 @@ func newPulsar(mt protoreflect.MessageType) proto.Message { return mt.New().Inte
 
 var retainedMethods = map[protoreflect.FullName]*protoiface.Methods{}
 
+var boundaryCase int
+
+// deepMapValue builds a message of type md whose k-th message-typed field (k rotating) leads,
+// possibly through up to two singular message fields, to a map that is given five entries.
+func deepMapValue(g *val.Gen, md protoreflect.MessageDescriptor, k int) *dynamicpb.Message {
+	target := func(fd protoreflect.FieldDescriptor) protoreflect.MessageDescriptor {
+		if fd.IsMap() {
+			return fd.MapValue().Message()
+		}
+		return fd.Message()
+	}
+	mapOf := func(m protoreflect.MessageDescriptor) protoreflect.FieldDescriptor {
+		for i := 0; i < m.Fields().Len(); i++ {
+			if fd := m.Fields().Get(i); fd.IsMap() && fd.MapKey().Kind() != protoreflect.BoolKind {
+				return fd
+			}
+		}
+		return nil
+	}
+	// singular steps from m to a message type that has a map (at most two)
+	var steps func(m protoreflect.MessageDescriptor, left int) ([]protoreflect.FieldDescriptor, bool)
+	steps = func(m protoreflect.MessageDescriptor, left int) ([]protoreflect.FieldDescriptor, bool) {
+		if mapOf(m) != nil {
+			return nil, true
+		}
+		if left == 0 {
+			return nil, false
+		}
+		for i := 0; i < m.Fields().Len(); i++ {
+			fd := m.Fields().Get(i)
+			if fd.Message() == nil || fd.IsMap() || fd.IsList() || strings.HasPrefix(string(fd.Message().FullName()), "google.protobuf.") {
+				continue
+			}
+			if rest, ok := steps(fd.Message(), left-1); ok {
+				return append([]protoreflect.FieldDescriptor{fd}, rest...), true
+			}
+		}
+		return nil, false
+	}
+	type cand struct {
+		first protoreflect.FieldDescriptor
+		path  []protoreflect.FieldDescriptor
+	}
+	var cands []cand
+	for i := 0; i < md.Fields().Len(); i++ {
+		fd := md.Fields().Get(i)
+		if t := target(fd); t != nil && !strings.HasPrefix(string(t.FullName()), "google.protobuf.") {
+			if p, ok := steps(t, 2); ok {
+				cands = append(cands, cand{fd, p})
+			}
+		}
+	}
+	if len(cands) == 0 {
+		return nil
+	}
+	c := cands[k%len(cands)]
+	root := dynamicpb.NewMessage(md)
+	var cur protoreflect.Message
+	switch {
+	case c.first.IsMap():
+		cur = root.Mutable(c.first).Map().Mutable(g.Scalar(c.first.MapKey()).MapKey()).Message()
+	case c.first.IsList():
+		cur = root.Mutable(c.first).List().AppendMutable().Message()
+	default:
+		cur = root.Mutable(c.first).Message()
+	}
+	for _, st := range c.path {
+		cur = cur.Mutable(st).Message()
+	}
+	mf := mapOf(cur.Descriptor())
+	mp := cur.Mutable(mf).Map()
+	for i := 0; i < 12 && mp.Len() < 5; i++ {
+		key := g.Scalar(mf.MapKey()).MapKey()
+		if mf.MapValue().Message() != nil {
+			mp.Mutable(key)
+		} else {
+			mp.Set(key, g.Scalar(mf.MapValue()))
+		}
+	}
+	return root
+}
+
+// extremeScalar: a value of fd's kind with the widest (or narrowest) wire encoding.
+func extremeScalar(fd protoreflect.FieldDescriptor, wide bool) protoreflect.Value {
+	switch fd.Kind() {
+	case protoreflect.EnumKind:
+		vs := fd.Enum().Values()
+		best := vs.Get(0).Number()
+		for i := 0; i < vs.Len(); i++ {
+			n := vs.Get(i).Number()
+			if wide && (n < 0 || (best >= 0 && n > best)) {
+				best = n
+			}
+		}
+		return protoreflect.ValueOfEnum(best)
+	case protoreflect.Int32Kind:
+		if wide {
+			return protoreflect.ValueOfInt32(-1)
+		}
+		return protoreflect.ValueOfInt32(1)
+	case protoreflect.Sint32Kind, protoreflect.Sfixed32Kind:
+		if wide {
+			return protoreflect.ValueOfInt32(math.MinInt32)
+		}
+		return protoreflect.ValueOfInt32(1)
+	case protoreflect.Int64Kind, protoreflect.Sint64Kind, protoreflect.Sfixed64Kind:
+		if wide {
+			return protoreflect.ValueOfInt64(math.MinInt64)
+		}
+		return protoreflect.ValueOfInt64(1)
+	case protoreflect.Uint32Kind, protoreflect.Fixed32Kind:
+		if wide {
+			return protoreflect.ValueOfUint32(math.MaxUint32)
+		}
+		return protoreflect.ValueOfUint32(1)
+	case protoreflect.Uint64Kind, protoreflect.Fixed64Kind:
+		if wide {
+			return protoreflect.ValueOfUint64(math.MaxUint64)
+		}
+		return protoreflect.ValueOfUint64(1)
+	case protoreflect.StringKind:
+		if wide {
+			return protoreflect.ValueOfString("a rather long value")
+		}
+		return protoreflect.ValueOfString("")
+	case protoreflect.BytesKind:
+		if wide {
+			return protoreflect.ValueOfBytes([]byte("a rather long value"))
+		}
+		return protoreflect.ValueOfBytes(nil)
+	case protoreflect.BoolKind:
+		return protoreflect.ValueOfBool(wide)
+	case protoreflect.FloatKind:
+		return protoreflect.ValueOfFloat32(1.5)
+	default:
+		return protoreflect.ValueOfFloat64(1.5)
+	}
+}
+
 // rekey replaces the keys of every populated map of m (not bool-keyed ones) by other keys,
 // keeping the number of entries and the values.
 func rekey(m protoreflect.Message) {
@@ -986,6 +1125,69 @@ func randomCodecPlan(g *val.Gen, mt protoreflect.MessageType, mode string, emit 
 	if mode == "pure" {
 		emit(Op{Op: "detn", Reps: 6, Tag: "pure"})
 		emit(Op{Op: "marshal", Det: true, Tag: "pure"}) // incl. the direct fast-path call with Flags = Deterministic only
+		// one string-keyed map of the type (another one in every case) holding nothing but entries
+		// around the one-/two-byte length prefix: keys of 110..125 bytes, values alternately of
+		// the narrowest and the widest encoding -- whatever pairs keys with values, or sizes an
+		// entry, in an order other than the one it is written in shows here
+		var cands []protoreflect.FieldDescriptor
+		for i := 0; i < md.Fields().Len(); i++ {
+			if fd := md.Fields().Get(i); fd.IsMap() && fd.MapKey().Kind() == protoreflect.StringKind && fd.MapValue().Message() == nil {
+				cands = append(cands, fd)
+			}
+		}
+		if len(cands) > 0 {
+			fd := cands[boundaryCase%len(cands)]
+			boundaryCase++
+			bd := dynamicpb.NewMessage(md)
+			mp := bd.Mutable(fd).Map()
+			for i, l := range []int{110, 113, 116, 119, 122, 125} {
+				kb := make([]byte, l)
+				for j := range kb {
+					kb[j] = byte('a' + g.R.Intn(26))
+				}
+				mp.Set(protoreflect.ValueOfString(string(kb)).MapKey(), extremeScalar(fd.MapValue(), (i+boundaryCase)%2 == 0))
+			}
+			emit(Op{Op: "load", T: t, V: proj.Project(bd.ProtoReflect(), proj.WrapNone)})
+			emit(Op{Op: "detn", Reps: 6, Tag: "pure-boundary"})
+			emit(Op{Op: "marshal", Det: true, Tag: "pure-boundary"})
+			// ... and keys that share a long prefix (what a comparison of a leading word, a hash
+			// or a length would call equal)
+			emit(Op{Op: "load", T: t, V: v})
+		}
+		// ... and keys that share a long prefix (what a comparison of a leading word, a hash or a
+		// length would call equal), in any string-keyed map, message-valued ones included
+		var sk []protoreflect.FieldDescriptor
+		for i := 0; i < md.Fields().Len(); i++ {
+			if fd := md.Fields().Get(i); fd.IsMap() && fd.MapKey().Kind() == protoreflect.StringKind {
+				sk = append(sk, fd)
+			}
+		}
+		if len(sk) > 0 {
+			fd := sk[boundaryCase%len(sk)]
+			pd := dynamicpb.NewMessage(md)
+			pm := pd.Mutable(fd).Map()
+			for i, suffix := range []string{"alice", "bob", "carol/1", "carol/10", "carol/2", ""} {
+				key := protoreflect.ValueOfString("account/balance/" + suffix).MapKey()
+				if fd.MapValue().Message() != nil {
+					pm.Mutable(key)
+				} else {
+					pm.Set(key, extremeScalar(fd.MapValue(), i%2 == 0))
+				}
+			}
+			emit(Op{Op: "load", T: t, V: proj.Project(pd.ProtoReflect(), proj.WrapNone)})
+			emit(Op{Op: "detn", Reps: 6, Tag: "pure-prefix"})
+			emit(Op{Op: "marshal", Det: true, Tag: "pure-prefix"})
+			emit(Op{Op: "load", T: t, V: v})
+		}
+		// a map with several entries BELOW a message-typed field of each shape in turn (singular,
+		// oneof member, list element, map value) and up to two singular steps further down: the
+		// Deterministic option has to arrive there whatever the way
+		if dd := deepMapValue(g, md, boundaryCase); dd != nil {
+			emit(Op{Op: "load", T: t, V: proj.Project(dd.ProtoReflect(), proj.WrapNone)})
+			emit(Op{Op: "detn", Reps: 6, Tag: "pure-deep"})
+			emit(Op{Op: "marshal", Det: true, Tag: "pure-deep"})
+			emit(Op{Op: "load", T: t, V: v})
+		}
 	}
 	if is("size") {
 		emit(Op{Op: "size", Det: true, Tag: "size"})
